@@ -116,11 +116,12 @@ func runC03(c *Ctx) {
 	}
 	c.Rule("C03.W", "writer types do not grow optional net/http interfaces", 4)
 	ruleWriterMethodSets(c, p, "C03.W")
-	c.Rule("C03.S", "status and body pass through the wrappers and the proxy unchanged", 15)
+	c.Rule("C03.S", "status and body pass through the wrappers and the proxy unchanged; the backend-facing transport accepts any response", 16)
 	ruleStatusBodyPassThrough(c, p, "C03.S")
 	ruleBodyStreamEndsCleanly(c, p, "C03.S")
 	ruleServerTrailersAfterBody(c, p, "C03.S")
 	ruleNoMutationOfHTTPDefaults(c, p, "C03.S")
+	ruleBackendTransportAcceptsAnyResponse(c, p, "C03.S")
 }
 
 // ---- C03.T
